@@ -3,6 +3,7 @@ package main
 // Small building blocks shared by the rules.
 
 import (
+	"regexp"
 	"fmt"
 	"go/token"
 	"go/types"
@@ -763,6 +764,74 @@ func neverNilError(v ssa.Value) bool {
 				return true
 			}
 			if isAnchor(f, "util.NewYamlError") {
+				return true
+			}
+		}
+	}
+	return false
+}
+
+// ---- closures are identified by what they are, not by go/ssa's ordinal ($1, $2 …), which shifts when an unrelated
+// function literal (a deferred logger, a monitor goroutine) is added earlier in the parent
+
+var closureOrdinal = regexp.MustCompile(`\$\d+`)
+
+// normClosure replaces closure ordinals in a name or table key by a wildcard
+func normClosure(s string) string { return closureOrdinal.ReplaceAllString(s, "$$·") }
+
+// lookupReviewed finds a reviewed-table entry by its exact key, or by its key with the closure ordinals ignored
+func lookupReviewed(table map[string]string, key string) (string, bool) {
+	if v, ok := table[key]; ok {
+		return v, true
+	}
+	if !strings.Contains(key, "$") {
+		return "", false
+	}
+	nk := normClosure(key)
+	var keys []string
+	for k := range table {
+		if strings.Contains(k, "$") && normClosure(k) == nk {
+			keys = append(keys, k)
+		}
+	}
+	sort.Strings(keys)
+	if len(keys) > 0 {
+		return table[keys[0]], true
+	}
+	return "", false
+}
+
+// returnedClosure: the function literal that fn returns (its starter / factory closure)
+func returnedClosure(fn *ssa.Function) *ssa.Function {
+	var out *ssa.Function
+	eachInstr(fn, func(in ssa.Instruction) {
+		r, ok := in.(*ssa.Return)
+		if !ok {
+			return
+		}
+		for _, v := range r.Results {
+			if mc, ok := resolve(v).(*ssa.MakeClosure); ok {
+				if f, ok := mc.Fn.(*ssa.Function); ok {
+					out = f
+				}
+			}
+		}
+	})
+	if out == nil {
+		broken("%s no longer returns a function literal", anchorName(fn))
+	}
+	return out
+}
+
+// isConstructionBoundary: pipeline / sink / parser construction, which runs once per key set or connection (C16's business)
+func isConstructionBoundary(f *ssa.Function) bool {
+	if constructionBoundary[anchorName(f)] {
+		return true
+	}
+	// the per-connection parser factory: the literal of sysloginput.(*Config).NewInput that builds the parser
+	if p := f.Parent(); p != nil && anchorName(p) == "input/sysloginput.(*Config).NewInput" {
+		for _, s := range callsIn(f) {
+			if g := s.Common().StaticCallee(); g != nil && isAnchor(g, aNewParser) {
 				return true
 			}
 		}
